@@ -500,9 +500,10 @@ package spg
 //@   atreturn ghost G = arr(s)
 //@   atreturn ghost L[0] = len(s)
 //@   ensures [C03] joined: res == joinseg(G, 0, L[0])
-//@   ensures [C03] sorted: forall(int(i), int(j), trig(G[i], G[j]), 0 <= i && i < j && j < L[0] ==> strlt(G[i], G[j]))
-//@   ensures [C03] exact:  forall(str(c), (exists(int(k), 0 <= k && k < L[0] && G[k] == c)) == inA(r, arr(r.RequireSets), off(r.RequireSets), len(r.RequireSets), c))
-//@   ensures [C03] chars:  forall(int(k), trig(G[k]), 0 <= k && k < L[0] ==> clen(G[k]) == 1)
+//@   ensures [C03] sorted: forall(int(i), int(j), trig(G[idx(0, i)], G[idx(0, j)]), 0 <= i && i < j && j < L[0] ==> strlt(G[idx(0, i)], G[idx(0, j)]))
+//@   ensures [C03] exact-in:  forall(int(k), trig(G[idx(0, k)]), 0 <= k && k < L[0] ==> inA(r, arr(r.RequireSets), off(r.RequireSets), len(r.RequireSets), G[idx(0, k)]))
+//@   ensures [C03] exact-all: forall(str(c), inA(r, arr(r.RequireSets), off(r.RequireSets), len(r.RequireSets), c) ==> exists(int(k), 0 <= k && k < L[0] && G[idx(0, k)] == c))
+//@   ensures [C03] chars:  forall(int(k), trig(G[idx(0, k)]), 0 <= k && k < L[0] ==> clen(G[idx(0, k)]) == 1)
 
 //@ func sfWrap
 //@   requires [C03] utf8:  utf8ok(r.AllowChars) && utf8ok(r.ExcludeChars) &&
